@@ -8,6 +8,7 @@ nil sources, all category combinations at converter and method level, both argum
 import Gv.Model.Eval
 import Gv.Model.Gen
 import Gv.Proofs.EvalLemmas
+import Gv.Proofs.Frame
 
 namespace Gv.Props.C10
 open Gv Gv.Str Gv.Eval Gv.Gen
@@ -71,5 +72,22 @@ theorem C10_no_guard_outside_update (c : Converter) (cx : Ctx) (s t : Ty) (call 
 theorem C10_arrays_not_guarded (c : Converter) (cx : Ctx) (n : Nat) (e t : Ty) (isUpdate call : Bool) :
     shouldCheckZero c cx (.array n e) t isUpdate call = false := by
   simp [shouldCheckZero, under]
+
+/-! ### The frame theorem: an update writes only the fields its plan assigns
+
+For ALL plans (whatever conversions, custom functions, zero guards, nil-guarded paths or source methods the fields use),
+all source values, all previous target values and all fuel: a field of the target instance that no plan of the struct
+conversion targets (ignored fields, fields skipped by ignoreMissing / ignoreUnexported) has the value it had before. -/
+
+open Gv.Sound in
+theorem C10_frame (p : Program) (fuel : Nat) (fr : Frame) (plans : FieldPlans) (upd : Bool) (src old : Val) (n : Nat)
+    (v' : Val) (n' : Nat) (hev : evalConv p (fuel + 1) fr (.structc plans upd) src old n = .ok (v', n'))
+    (name : S) (hname : name ∉ planTargets plans) : fieldOf v' name = fieldOf old name :=
+  structc_frame p fuel fr plans upd src old n v' n' hev name hname
+
+open Gv.Sound in
+/-- non-vacuity: with `Keep` ignored and `V` mapped, `Keep` keeps "kept" while `V` is overwritten -/
+example : ("Keep".toList ∉ planTargets (.cons (.skip "Keep".toList) (.cons (.mapped "V".toList ["V".toList] [false] false false .ident .none) .nil))) := by
+  decide
 
 end Gv.Props.C10
